@@ -26,6 +26,12 @@ limitations under the License.
 
 namespace libcellml {
 
+#ifdef LIBCELLML_VERIF
+// Verification hook: every mutation of a logger is reported as (implementation object, operation, argument);
+// operation 0 = addIssue(level), 1 = removeError(index), 2 = removeAllIssues.
+void (*verifLoggerTrace)(const void *, int, size_t) = nullptr;
+#endif
+
 Logger::LoggerImpl *Logger::pFunc()
 {
     return mPimpl;
@@ -87,6 +93,11 @@ IssuePtr Logger::message(size_t index) const
 
 void Logger::LoggerImpl::removeAllIssues()
 {
+#ifdef LIBCELLML_VERIF
+    if (verifLoggerTrace != nullptr) {
+        verifLoggerTrace(this, 2, 0);
+    }
+#endif
     mIssues.clear();
     mErrors.clear();
     mWarnings.clear();
@@ -95,6 +106,11 @@ void Logger::LoggerImpl::removeAllIssues()
 
 void Logger::LoggerImpl::removeError(size_t index)
 {
+#ifdef LIBCELLML_VERIF
+    if (verifLoggerTrace != nullptr) {
+        verifLoggerTrace(this, 1, index);
+    }
+#endif
     mIssues.erase(mIssues.begin() + ptrdiff_t(mErrors.at(index)));
     mErrors.erase(mErrors.begin() + ptrdiff_t(index));
 }
@@ -105,6 +121,11 @@ void Logger::LoggerImpl::addIssue(const IssuePtr &issue)
     size_t index = mIssues.size();
     mIssues.push_back(issue);
     libcellml::Issue::Level level = issue->level();
+#ifdef LIBCELLML_VERIF
+    if (verifLoggerTrace != nullptr) {
+        verifLoggerTrace(this, 0, size_t(level));
+    }
+#endif
     switch (level) {
     case libcellml::Issue::Level::ERROR:
         mErrors.push_back(index);
